@@ -198,6 +198,24 @@ func scenTDN(s *sched.Sim, cfg Config, res *Result) {
 		}
 		return &upScript{ack: "ack"}
 	}
+	{
+		var d []string
+		for c, st := range scripts {
+			var ks []string
+			for _, x := range st {
+				ks = append(ks, x.kind+"("+x.id+")")
+			}
+			d = append(d, fmt.Sprintf("conn %d: %s", c, strings.Join(ks, " ")))
+		}
+		for _, sp := range allSpecs {
+			var evs []string
+			for _, e := range sp.script.events {
+				evs = append(evs, e.kind)
+			}
+			d = append(d, fmt.Sprintf("upstream for conn %d %s: %s %v", sp.conn, sp.id, sp.script.ack, evs))
+		}
+		s.Describe(map[string]any{"gateway": gc.String(), "history": d, "policy": fmt.Sprintf("%+v", s.Policy)})
+	}
 	clients := make([]*wsClient, nConn)
 	finished := 0
 	for c := 0; c < nConn; c++ {
